@@ -103,16 +103,20 @@ class Sim:
 # ---------------------------------------------------------------------------
 # generator
 # ---------------------------------------------------------------------------
-SIGMAS = [0.25, 0.5, 1.0, 2.0, 4.0, 8.0, 3.0, 1.5, 0.75, 5.0, 0.1, 10.0]
+# sigmas whose square has a small odd part: natural parameters stay rationals with small denominators
+# (exact arithmetic inside Coq stays cheap); 3, 5, 7 make 1/sigma**2 inexact in binary64 all the same
+NICE = [c * 2.0 ** k for k in range(-14, 9) for c in (1.0, 1.5, 1.25, 1.75)]
+SIGMAS = [0.25, 0.5, 1.0, 2.0, 4.0, 8.0, 3.0, 1.5, 0.75, 5.0, 6.0, 10.0, 1.25, 0.625, 7.0]
 DELTAS = [1.0, 1.0, 1.0, 0.5, 0.5, 0.25, 0.75, 0.125, 2.0]
 
 
 def rmean(rng):
-    return rng.randint(-64, 64) / 8.0 if rng.random() < 0.8 else round(rng.uniform(-50, 50), 3)
+    # short dyadic means keep the exact rationals of the model small
+    return rng.randint(-64, 64) / 8.0 if rng.random() < 0.8 else rng.randint(-800, 800) / 16.0
 
 
 def rsigma(rng):
-    return rng.choice(SIGMAS) if rng.random() < 0.85 else round(rng.uniform(0.05, 20), 3)
+    return rng.choice(SIGMAS)
 
 
 def hx(x):
@@ -126,14 +130,15 @@ def pick_new(rng, sim, i, delta, cav, last, keys, want_valid):
         new = {}
         for v in keys:
             mean = rmean(rng)
-            pc = -2 * cav[v][1] if v in cav else Fr(0)
-            if want_valid.get(v, True):
-                k = rng.choice([1.5, 2.0, 4.0, 16.0])
-                target = float(pc) * k if pc > 0 else None
+            pc = float(-2 * cav[v][1]) if v in cav else 0.0
+            if pc <= 0 or rng.random() < 0.25:
+                sigma = rsigma(rng)
+            elif want_valid.get(v, True):
+                cands = sorted((s_ for s_ in NICE if 1 / (s_ * s_) >= 1.3 * pc), reverse=True)[:8]
+                sigma = rng.choice(cands) if cands else rsigma(rng)
             else:
-                k = rng.choice([0.5, 0.25, 0.75])
-                target = float(pc) * k if pc > 0 else None
-            sigma = rsigma(rng) if target is None or rng.random() < 0.3 else float(target) ** -0.5
+                cands = sorted(s_ for s_ in NICE if 1 / (s_ * s_) <= 0.75 * pc)[:8]
+                sigma = rng.choice(cands) if cands else rsigma(rng)
             new[v] = (mean, sigma)
         ok = True
         for v, (mean, sigma) in new.items():
@@ -714,6 +719,40 @@ def oracle_par(c, r):
     return oracle_run(c, r, run, nf, state0, c["parallel"], "run")
 
 
+def run_order(c, r):
+    """visiting order of a declarative run: explicit factor_order, or the observed graph order"""
+    run = c["run"]
+    return list(r["graph_order"]) if run["mode"] == "optimise" else list(run["order"])
+
+
+def margins_ok(c, order):
+    """re-simulate a declarative run in the given order: is every projection decided with a margin?"""
+    run = c["run"]
+    sim = Sim(sim_init(c, occ_variant=True))
+    counts = {}
+    for _ in range(run["max_steps"]):
+        for i in order:
+            k = counts.get(i, 0)
+            counts[i] = k + 1
+            if k >= len(run["scripts"][i]):
+                return False
+            oc = run["scripts"][i][k]
+            cav, last = sim.cavity(i), dict(sim.st[i])
+            dj = run["delta"]
+            delta = Fr(unhex(dj["d"])) if dj["t"] == "scalar" else sim.dynamic(unhex(dj["d0"]))
+            if oc["t"] == "raise":
+                new = {v: add(last[v], cav[v]) if v in cav else last[v] for v in last}
+            else:
+                new = {v: natf(unhex(mu), unhex(sg)) for v, mu, sg in oc["new"]}
+            for v, nw in new.items():
+                cnd, _ = sim.candidate(delta, cav, last, v, nw)
+                mag = abs(nw[1]) + (abs(cav[v][1]) if v in cav else 0) + (abs(last[v][1]) if v in last else 0)
+                if oc["t"] != "raise" and abs(cnd[1]) * 2 ** 16 < mag:
+                    return False
+            sim.project(i, delta, cav, last, new)
+    return True
+
+
 def oracle_decl(c, r):
     fails = []
     fs, gf, include = decl_graph(c)
@@ -744,6 +783,10 @@ def oracle_decl(c, r):
                 fails.append(("initial cavity of factor %d for variable %d is not the user's prior" % (i, v), [("init", v)]))
     run = c.get("run")
     if run:
+        run = dict(run, order=run_order(c, r))
+        if sorted(run["order"]) != list(range(len(gf))) and c["run"]["mode"] == "optimise":
+            fails.append(("default visiting order %s is not a permutation of the graph's factors" % run["order"], []))
+            return fails
         fails += oracle_run(c, r, run, len(gf), state0, False, "run")
         # EPResult accessors built on the histories
         nm = r["n_model_factors"]
@@ -903,7 +946,7 @@ def coq_decl(c, r):
     return "CDecl %s %s %s %s %s %s %s %s %s %s %s %s %s %s %s" % (
         priors, clist([clist([cnat(v) for v in f]) for f in fs]), cbool(include),
         clist([c_obs_mf(m) for m in r["state0"]]), clist([c_obs_mf(m) for m in r["cavity0"]]),
-        c_rdelta(run["delta"]), clist([cnat(i) for i in run["order"]]), cnat(run["max_steps"]), stop,
+        c_rdelta(run["delta"]), clist([cnat(i) for i in run_order(c, r)]), cnat(run["max_steps"]), stop,
         clist([clist([c_outcome(oc) for oc in sc]) for sc in run["scripts"]]),
         olog, clist([c_obs_mf(m) for m in r["final"]]), oacc,
         clist([clist([cnat(i) for i in g_]) for g_ in grp]), ogroups)
@@ -1002,6 +1045,9 @@ def run(ctx):
             ctx.failure("oracle", "implementation raised %s: %s" % (r["exc"], r.get("msg")), c, impl=r)
             continue
         o = r["ok"]
+        if c["kind"] == "decl" and run_order(c, o) != c["run"]["order"] and not margins_ok(c, run_order(c, o)):
+            ctx.hist("dropped", "graph order differs from the generator's assumption and margins are not guaranteed")
+            continue
         fails = {"raw": oracle_raw, "par": oracle_par, "decl": oracle_decl}[c["kind"]](c, o)
         if fails:
             ctx.oracle["failures"] += 1
